@@ -1032,4 +1032,83 @@ example : KV.BenchText.printBench (benchOf exNl) = "INPUT(a)\nINPUT(y)\nINPUT(b)
 
 end FormatEquiv
 
+
+/-! ### a primitive gate NEXT TO certified library cells (third audit, item 2)
+
+On every case the harness can reach the real reader rejects kinds outside the library it is given, so `vArityLibB` never inspects a primitive
+there. This kernel-checked instance does: `AOI21_X1 → AND2 (primitive, pin table `pTL`) → INV_X1`; every hypothesis of
+`verilog_library_text_end_to_end` (incl. `hpos`, `RStmt.ok`, `tlFitsB`, `vArityLibB`) holds by `decide +kernel`, the theorem is applied, and the
+by-name model agrees (`pFull`). Written by the auditor as a positive witness. -/
+section PrimitiveWitness
+open KV KV.Netlist KV.Transform KV.TL KV.DS KV.Sig KV.VerilogText
+
+def pTL : TL := fun k p =>
+  if k == "AND2" then (if p == "A1" then some (0, false) else if p == "A2" then some (1, false) else if p == "Z" then some (0, true) else none)
+  else exTLn k p
+
+def pM : VModule := ⟨"top", ["a", "b1", "b2", "c", "y"],
+  [.decl .input none ["a", "b1", "b2", "c"], .decl .output none ["y"], .decl .wire none ["n", "m"],
+   .inst "AOI21_X1" "u1" [.named "A" (some (.sig "a" none)), .named "B1" (some (.sig "b1" none)), .named "B2" (some (.sig "b2" none)),
+     .named "ZN" (some (.sig "n" none))],
+   .inst "AND2" "g" [.named "A1" (some (.sig "n" none)), .named "A2" (some (.sig "c" none)), .named "Z" (some (.sig "m" none))],
+   .inst "INV_X1" "u2" [.named "I" (some (.sig "m" none)), .named "ZN" (some (.sig "y" none))]]⟩
+def pRs : List RStmt := (toRs pM.stmts).getD []
+def pS : List Stmt := pRs.map transform
+def pNN : NNet := verilogNNet {} pTL pM.ports pS
+def pH : NNet := (resolveCells exLibN pNN).getD default
+def pOrder : List Nat := [6,7,8,9,10,11,12,13,0,1,2,3,4,5,14]
+-- stimulus a=0,b1=0,b2=1,c=1  -> n = ¬(0 ∨ 0) = 1, m = 1 ∧ 1 = 1, y = 0
+def pEnv : Nat → Bool := fun x => x == pH.net.idx.ppi + 2 || x == pH.net.idx.ppi + 3
+
+theorem pM_rs : toRs pM.stmts = some pRs := by
+  have h : (toRs pM.stmts).isSome = true := by decide +kernel
+  unfold pRs
+  cases h' : toRs pM.stmts with
+  | none => rw [h'] at h; cases h
+  | some rs => rfl
+theorem pH_eq : resolveCells exLibN pNN = some pH := by
+  have h : (resolveCells exLibN pNN).isSome = true := by decide +kernel
+  unfold pH
+  cases h' : resolveCells exLibN pNN with
+  | none => rw [h'] at h; cases h
+  | some r => rfl
+
+theorem pCerts : ∀ c, c < pNN.net.nodes.size → (exLibN.find (pNN.net.node c).kind).isSome = true →
+    InstCert exLibN exRowN exOrdN pNN c := by
+  intro c hc hs
+  have h15 : c < 15 := by
+    have : pNN.net.nodes.size = 15 := by decide +kernel
+    omega
+  rcases (by omega : c = 0 ∨ c = 1 ∨ c = 2 ∨ c = 3 ∨ c = 4 ∨ c = 5 ∨ c = 6 ∨ c = 7 ∨ c = 8 ∨ c = 9 ∨ c = 10 ∨ c = 11 ∨ c = 12 ∨ c = 13 ∨ c = 14) with
+    rfl | rfl | rfl | rfl | rfl | rfl | rfl | rfl | rfl | rfl | rfl | rfl | rfl | rfl | rfl
+  · exact ⟨nAoi, ⟨[0, 1, 2], [3], [0], some 4⟩, by decide +kernel, by decide +kernel, by decide +kernel, by decide +kernel,
+      by decide +kernel, by decide +kernel, by decide +kernel, by decide +kernel, exRow_mem _, by decide +kernel, by decide +kernel⟩
+  · exact absurd hs (by decide +kernel)
+  · exact absurd hs (by decide +kernel)
+  · exact absurd hs (by decide +kernel)
+  · exact ⟨nInv, ⟨[0], [1], [0], some 2⟩, by decide +kernel, by decide +kernel, by decide +kernel, by decide +kernel,
+      by decide +kernel, by decide +kernel, by decide +kernel, by decide +kernel, exRow_mem _, by decide +kernel, by decide +kernel⟩
+  all_goals exact absurd hs (by decide +kernel)
+
+-- every hypothesis incl. the new ones (hpos, RStmt.ok, tlFitsB, vArityLibB with a primitive combinational gate actually inspected)
+theorem pFull : ∃ σ, VModelLib (libHas exLibN) exRowN pTL pM.ports pS (fun p => pEnv (pH.net.idx.ppi + p)) σ ∧
+    VModelLibN (libHas exLibN) exRowN pTL pM.ports pS (fun p => pEnv (pH.net.idx.ppi + p)) σ ∧
+    (∀ i, i < pNN.net.lines.size →
+      exec semL2n ((genOps Gen.kindPrefixes pH.net pOrder false).map OpRow.toOp) pEnv i = vLabel {} pTL pS false prim2 σ i) := by
+  have hnn : (circOfText {} pTL (printVerilog [pM])).map (fun C => C.toNNet C.ioVerilog) = some pNN :=
+    verilog_text_to_nnet {} pTL pM pRs (by decide +kernel) pM_rs (by decide +kernel) (by decide +kernel)
+  have htl : tlFitsB (libHas exLibN) exRowN pTL pS = true := by decide +kernel
+  obtain ⟨σ, hm, _, hlines, _⟩ := verilog_library_text_end_to_end {} pTL pM pRs (by decide +kernel) pM_rs
+    (by decide +kernel) (by decide +kernel) (by decide +kernel) exLibN (by decide +kernel)
+    pNN pH hnn (by decide +kernel) (by decide +kernel) pH_eq exRowN exOrdN pCerts (by decide +kernel) pOrder
+    (by decide +kernel) (by decide +kernel) (by decide +kernel) pEnv
+    (by decide +kernel) htl (by decide +kernel)
+  exact ⟨σ, hm, (verilog_library_by_name exLibN exRowN pTL pM.ports pS htl _ σ).mp hm, hlines⟩
+
+-- the primitive gate is really looked at by vArityLibB: its inConn is non-empty
+example : (vInsts pS).map (fun (i : VInst) => (i.ty, libHas exLibN i.ty, KV.Netlist.isSeqKind i.ty, (inConn pTL i).map (·.2.1))) =
+  [("AOI21_X1", true, false, [0,1,2]), ("AND2", false, false, [0,1]), ("INV_X1", true, false, [0])] := by decide +kernel
+-- direct evaluation, line into output port y
+end PrimitiveWitness
+
 end KV.C11
